@@ -14,8 +14,8 @@ from tcv.core import Result, Violation
 from tcv.pool import pmap
 
 DEFAULTS = {'c': 1, 'd': None, 'k': '1'}
-VALUES_Q = [0, 1, '1', None, {'a': 1, 'b': [2]}]
-VALUES_T = [0, 1, '1', None, [1], {'a': 1, 'b': [2]}]
+VALUES_Q = [0, 1, '1', None, {'a': 1, 'b': [2]}, 1.0, True]
+VALUES_T = [0, 1, '1', None, [1], {'a': 1, 'b': [2]}, 1.0, True, False, 0.0]
 
 
 def shapes():
@@ -132,6 +132,11 @@ def spellings(shape, b, all_orders=True):
     return out + extra
 
 
+def _tj(v):
+    """type-strict image: 1, 1.0 and True are different arguments (they are different JSON)"""
+    return json.dumps(v, sort_keys=True)
+
+
 def canon(b, ignore=()):
     return json.dumps({k: v for k, v in b.items() if k not in ignore}, sort_keys=True)
 
@@ -152,7 +157,7 @@ def _check_shape(args):
     res = Result()
     values = VALUES_Q if tier == 'quick' else VALUES_T
     if cache_kind == 'json':
-        values = values[:3] + values[-1:]
+        values = values[:3] + values[4:6]
     K, names = make_class(shape, ignore=ignore, style=style)
     obj = K(_make_cache(cache_kind, None))
     first_value = {}
@@ -173,8 +178,8 @@ def _check_shape(args):
             except Exception as e:  # noqa
                 res.violations.append(Violation(f'cached: call raised ({type(e).__name__})', f'shape {shape} ignore {ignore} {cache_kind}: m(*{a!r}, **{kw!r}): {e}', dict(case0, binding=b)))
                 break
-            if got != expected or obj.n != execs:
-                kind = 'wrong value for the binding' if got != expected else ('method executed again for an equal binding' if obj.n > execs else 'method not executed for a new binding')
+            if _tj(got) != _tj(expected) or obj.n != execs:
+                kind = 'wrong value for the binding' if _tj(got) != _tj(expected) else ('method executed again for an equal binding' if obj.n > execs else 'method not executed for a new binding')
                 res.violations.append(Violation(
                     f'cached: {kind}',
                     f'signature m({signature_src(shape)[0]}) ignore={list(ignore)} cache={cache_kind} style={style}: call m(*{a!r}, **{kw!r}) binds {b}; returned {got!r}, expected {expected!r}; '
@@ -324,7 +329,7 @@ def run(tier, seed):
                             'distinct_nontrivial = bindings with more than one spelling + distinct history outcomes') % (len(VALUES_Q if tier == 'quick' else VALUES_T), depth)
     res.sample({'shape': [2, 2, 'required'], 'binding': {'a': 0, 'b': None, 'c': 1, 'd': None, 'k': '1'},
                 'spellings': len(spellings((2, 2, 'required'), {'a': 0, 'b': None, 'c': 1, 'd': None, 'k': '1'}))})
-    res.assumptions += ['argument values are JSON-distinguishable (no True vs 1, no tuple vs list)', 'the explicit cache object is not required to separate methods (statement: own cache only)']
+    res.assumptions += ['argument values are compared as JSON (1, 1.0 and True are different arguments; tuples are not used)', 'the explicit cache object is not required to separate methods (statement: own cache only)']
     return res
 
 
